@@ -53,10 +53,10 @@ from bisturi.packet import PacketError
         if self.generate_for_pack:
             pack_code = '''
 def pack_impl(pkt, fragments, **k):
-%(sync_descriptors_code)s
    k['innermost-pkt-pos'] = fragments.current_offset
    fields = pkt.get_fields()
    try:
+%(sync_descriptors_code)s
 %(blocks_of_code)s
    except PacketError as e:
       e.add_parent_field_and_packet(fragments.current_offset, name, pkt.__class__.__name__)
@@ -207,6 +207,18 @@ def unpack_impl(pkt, raw, offset, **k):
 
         if not sync_methods:
             return ""
+
+        if sync_for_pack:
+            # these calls are inside of the try/except of pack_impl
+            sync_calls = '\n'.join(
+                '   name = %r\n   sync_methods[%i](pkt)' % (
+                    getattr(
+                        getattr(sync, '__self__', None), 'descriptor_name',
+                        None
+                    ), i
+                ) for i, sync in enumerate(sync_methods)
+            )
+            return indent(setup_code + sync_calls, level=1)
 
         sync_calls = '\n'.join('   sync_methods[%i](pkt)' % i \
                                             for i in range(len(sync_methods)))
